@@ -72,28 +72,37 @@ def getUnitValues (inds : List (List Nat)) (vals : List (List Int)) (allNames : 
     unitValuesRow (indsM.getD row []) (valsM.getD row [])) allNames
   return (allNames.zip rows).filter (fun p => wanted.contains p.1)
 
+/-- the wrap-around change count of one values row: `len(np.where([row[i] != row[i - 1] ...])[0])` -/
+def changeCountInt (row : List Int) : Nat :=
+  ((List.range row.length).filter (fun i =>
+    row.getD i 0 != row.getD (if i = 0 then row.length - 1 else i - 1) 0)).length
+
+/-- `changed = np.where(this_col != last_col)[0]` at column `jcol`, rows taken in `order` -/
+def changedAt (vals : List (List Int)) (order : List Nat) (jcol : Nat) : List Nat :=
+  (List.range vals.length).filter (fun i =>
+    (vals.getD (order.getD i 0) []).getD jcol 0 != (vals.getD (order.getD i 0) []).getD (jcol - 1) 0)
+
+/-- the body of the column loop: one changed row is incremented; of several the last is incremented and
+    the others are reset; none leaves the running indices as they are -/
+def rebuildStep (changed : List Nat) (prev : List Nat) : List Nat :=
+  if changed.length == 1 then prev.modify (changed.headD 0) (· + 1)
+  else if changed.length > 1 then
+    (changed.dropLast.foldl (fun p c => p.set c 0) prev).modify (changed.getLastD 0) (· + 1)
+  else prev
+
+/-- the running indices (per sorted row) stored for every column -/
+def rebuildCols (vals : List (List Int)) (order : List Nat) (n : Nat) : List (List Nat) :=
+  (List.range (n - 1)).foldl (fun (acc : List (List Nat)) j =>
+    acc ++ [rebuildStep (changedAt vals order (j + 1)) (acc.getLastD (List.replicate vals.length 0))])
+    [List.replicate vals.length 0]
+
 /-- `create_spec_inds_from_vals` on a k × n values matrix -/
 def createSpecIndsFromVals (vals : List (List Int)) : List (List Nat) :=
-  let k := vals.length
   let n := (vals.headD []).length
-  let counts := vals.map (fun row => ((List.range row.length).filter (fun i =>
-    row.getD i 0 != row.getD (if i = 0 then row.length - 1 else i - 1) 0)).length)
-  let order := argsortRev counts
-  -- running index per sorted row, one column after the other
-  let cols := (List.range (n - 1)).foldl (fun (acc : List (List Nat)) j =>
-    let jcol := j + 1
-    let prev := acc.getLastD (List.replicate k 0)
-    let changed := (List.range k).filter (fun i =>
-      (vals.getD (order.getD i 0) []).getD jcol 0 != (vals.getD (order.getD i 0) []).getD (jcol - 1) 0)
-    let next :=
-      if changed.length == 1 then prev.modify (changed.headD 0) (· + 1)
-      else if changed.length > 1 then
-        (changed.dropLast.foldl (fun p c => p.set c 0) prev).modify (changed.getLastD 0) (· + 1)
-      else prev
-    acc ++ [next]) [List.replicate k 0]
+  let order := argsortRev (vals.map changeCountInt)
+  let cols := rebuildCols vals order n
   -- cols[j][i] is the index of sorted row i in column j; scatter back: out[order[i]][j]
-  (List.range k).map (fun d =>
-    let i := order.findIdx (· == d)
-    (List.range n).map (fun j => (cols.getD j []).getD i 0))
+  (List.range vals.length).map (fun d =>
+    (List.range n).map (fun j => (cols.getD j []).getD (order.findIdx (· == d)) 0))
 
 end Usid.UV
